@@ -206,6 +206,20 @@ func init() {
 		return f != nil && f.Kind == "panic" && refinementSiteRe.MatchString(f.Data["site"])
 	})
 
+	// The type descriptor inside a dynamic wrapper may carry an optional-attribute
+	// list; the value decoders type the returned value with it unchanged, so the
+	// value's type carries optional-attribute annotations (ill-formed, C06).
+	regKnown("c17WrapperOptionalType", func(_ string, raw json.RawMessage, f *facet.Failure) bool {
+		if f == nil || (f.Kind != "result/wf/hook" && f.Kind != "result/wf/optional") || !IsValueDecoder(f.Data["decoder"]) {
+			return false
+		}
+		if !strings.Contains(f.Msg, "optional-attribute annotations") || !strings.Contains(f.Data["vtype"], "\"?:") {
+			return false
+		}
+		_, data, ok := inputOf(raw)
+		return ok && strings.Contains(string(data), `"object"`)
+	})
+
 	// cty.SetVal unmarks every member deeply, which rebuilds nested sets through
 	// SetVal again: building a set nested d levels deep costs 2^d. The depth is
 	// attacker-controlled through the type descriptor of a dynamic wrapper.
